@@ -215,6 +215,8 @@ def main(prop: str, tier: str, classes=None) -> int:
     except C.DriverError as e:
         chk.obligation("driver run", False, str(e))
         results = []
+    for cn, cfg, err in T.FAILED_RUNS:
+        chk.fail("an optimizer run raises", {"optimizer": cn, **{k: str(v) for k, v in cfg.items()}, "error": err}, {"optimizer": cn, "clause": "raises"})
     extra = []
     if prop == "C17":
         # keep_history = False
